@@ -422,6 +422,9 @@ Section Sound.
       apply iter_exec_post; auto; try (eapply body_frames_of_framed; eauto).
     - (* Fold *)
       destruct (Nat.eqb (sa sg) 0 && Nat.eqb (so sg) 0); [exact I|].
+      destruct (Nat.eqb_spec (sa sg) 0) as [Ez|Enz].
+      { inversion Hv; subst; clear Hv. cbn [handle_ao fst snd] in *.
+        apply iter_exec_post; auto; try (eapply body_frames_of_framed; eauto). }
       destruct (sa sg <=? so sg); inversion Hv; subst; clear Hv.
       + cbn [handle_ao fst snd] in *. apply iter_exec_post; auto; try (eapply body_frames_of_framed; eauto).
       + rewrite (handle_sig_noU sg sk un _ _ U1 U2 S2) in *. cbn [fst snd] in *.
@@ -578,7 +581,7 @@ Section Sound.
     asg <= length rest -> ofs <= osg -> afs + (osg - ofs) <= asg ->
     let len := length rest in
     let dstart := len - asg in
-    let dend := Nat.max dstart ((dstart + asg + ofs) - (afs + osg)) in
+    let dend := Nat.min (Nat.max dstart ((dstart + asg + ofs) - (afs + osg))) (dstart + (asg - afs)) in
     (len <? dend) = false /\
     afs <= length (firstn (len - dend) rest ++ skipn (len - dstart) rest) /\
     exists mid, skipn afs (firstn (len - dend) rest ++ skipn (len - dstart) rest) = mid ++ skipn asg rest /\
